@@ -108,6 +108,26 @@ pub fn run(p: &Program, record: bool) -> RunResult {
         }
         step_invariants(&sim, p, i);
     }
+    // an adapter living inside a future of the loop's own executor is the documented
+    // reference cycle: break it (remove the executors) so that the run leaks nothing
+    let cyc: Vec<calloop::RegistrationToken> = {
+        let st = sim.st.borrow();
+        if st.adapters.values().any(|a| matches!(a.state, crate::adapter::AdState::InTask(_))) {
+            st.srcs.values().filter(|s| matches!(s.k, K::Exec(_)) && s.inserted).filter_map(|s| s.token).collect()
+        } else {
+            vec![]
+        }
+    };
+    if !cyc.is_empty() {
+        let h = sim.st.borrow().handle.clone();
+        if let Some(h) = h {
+            let _ = catch_unwind(AssertUnwindSafe(|| {
+                for t in cyc {
+                    h.remove(t);
+                }
+            }));
+        }
+    }
     // teardown: everything the loop owned must be released exactly once
     if !sim.is_dead() {
         do_drop_loop(&sim, &mut lp);
@@ -293,6 +313,14 @@ fn after_dispatch(sim: &Rc<Sim>, t: Timeout, ok: bool, err: Option<String>, t_st
         sim.probe("dispatch_err_expected");
     }
     crate::life::after_dispatch(sim, ok, !waits.is_empty());
+    if sim.is_dead() {
+        return;
+    }
+    crate::exec::after_dispatch(sim, ok);
+    if sim.is_dead() {
+        return;
+    }
+    crate::adapter::after_dispatch(sim, ok);
     if sim.is_dead() {
         return;
     }
@@ -517,6 +545,9 @@ pub fn wait_hook(
 fn compute_must(sim: &Sim) {
     let now = sim.now_ns();
     let mut st = sim.st.borrow_mut();
+    crate::exec::at_wait(&mut st);
+    crate::adapter::at_wait(&mut st);
+    let exec_runnable: std::collections::BTreeSet<Id> = st.tasks.values().filter(|t| t.runnable && !t.done).map(|t| t.exec).collect();
     let mut must = BTreeMap::new();
     for (id, s) in st.srcs.iter_mut() {
         if !(s.inserted && s.enabled) || s.indeterminate {
@@ -572,6 +603,20 @@ fn compute_must(sim: &Sim) {
                     must.insert(*id, Must::Callback);
                 }
             }
+            K::Exec(_) => {
+                if exec_runnable.contains(id) {
+                    must.insert(*id, Must::Process);
+                }
+            }
+            K::Stream(k) => {
+                if k.wake_pending {
+                    if !k.expected.is_empty() || (k.ended && !k.none_delivered) {
+                        must.insert(*id, Must::Callback);
+                    } else {
+                        must.insert(*id, Must::Process);
+                    }
+                }
+            }
             K::Failed => {}
         }
     }
@@ -601,6 +646,7 @@ pub fn batch_hook(sim: &Sim, events: &mut Vec<BatchEvent>, n_fd: usize) {
             continue;
         }
         match id {
+            None if st.adapter_keys.get(&e.key).and_then(|a| st.adapters.get(a)).map(|a| matches!(a.state, crate::adapter::AdState::Held | crate::adapter::AdState::InTask(_))).unwrap_or(false) => {}
             None => {
                 // an fd event whose key belongs to no live registration
                 if !st.srcs.values().any(|s| s.indeterminate) && st.adapters_indeterminate == 0 {
@@ -737,6 +783,13 @@ pub fn event_end(sim: &Sim, _key: usize) {
                                 viol = Some(("channel.not_removed_after_closed", vec![], format!("channel {} delivered Closed but did not ask for removal", id)));
                             }
                         }
+                        K::Stream(k) => {
+                            if !k.expected.is_empty() || (k.ended && !k.none_delivered) {
+                                viol = Some(("stream.items_left", vec![], format!("stream {} was polled but {} ready items (ended={}) were left undelivered without a pending wake-up", id, k.expected.len(), k.ended)));
+                            } else if k.none_delivered && pa != PostAction::Remove {
+                                viol = Some(("stream.not_removed_after_end", vec![], format!("stream {} delivered its final None but did not ask for removal", id)));
+                            }
+                        }
                         K::Timer(t) => {
                             if t.expect_remove && pa != PostAction::Remove {
                                 viol = Some(("timer.not_removed_after_drop", vec![], format!("timer {} returned Drop but did not ask for removal", id)));
@@ -868,6 +921,10 @@ pub fn pe_begin(id: Id, _key: usize) -> bool {
             K::Channel(c) => {
                 c.msgs_in_pe = 0;
             }
+            K::Stream(k) => {
+                k.wake_pending = false;
+                k.items_in_pe = 0;
+            }
             _ => {}
         }
         if injected {
@@ -922,6 +979,14 @@ pub fn scripted_failure(id: Id, _what: u8) {
 // ------------------------------------------------------------------------------------------
 
 fn step_invariants(sim: &Rc<Sim>, p: &Program, i: usize) {
+    crate::exec::step_invariants(sim, false);
+    if sim.is_dead() {
+        return;
+    }
+    crate::adapter::step_invariants(sim);
+    if sim.is_dead() {
+        return;
+    }
     // release: a removed source whose dispatcher the program does not hold is dropped once
     {
         let st = sim.st.borrow();
@@ -1014,6 +1079,23 @@ fn final_release_check(sim: &Rc<Sim>) {
     }
     let idle_handles: Vec<_> = sim.st.borrow_mut().idles.values_mut().filter_map(|i| i.handle.take()).collect();
     drop(idle_handles);
+    // an adapter is a strong handle on the loop; one that lives inside a future of the loop's
+    // own executor is the documented reference cycle: nothing is promised then
+    if sim.st.borrow().adapters.values().any(|a| matches!(a.state, crate::adapter::AdState::InTask(_))) {
+        sim.probe("teardown_with_adapter_cycle");
+        return;
+    }
+    let ads: Vec<_> = sim.st.borrow_mut().adapters.values_mut().filter_map(|a| a.adapter.take()).collect();
+    drop(ads);
+    // the program's schedulers and stored wakers go too
+    let scheds: Vec<_> = sim.st.borrow_mut().srcs.values_mut().filter_map(|s| if let K::Exec(e) = &mut s.k { e.sched.take() } else { None }).collect();
+    drop(scheds);
+    let wakers: Vec<_> = sim.st.borrow_mut().tasks.values_mut().filter_map(|t| t.waker.take()).collect();
+    drop(wakers);
+    crate::exec::step_invariants(sim, true);
+    if sim.is_dead() {
+        return;
+    }
     let st = sim.st.borrow();
     for (id, s) in st.srcs.iter() {
         if matches!(s.k, K::Failed) {
